@@ -39,6 +39,9 @@ class MachineDriver:
         self.loop.drain()
         self.check_errors("boot")
 
+    def after_fork(self):
+        self.loop.activate()
+
     def early_init(self, machine):
         pass
 
@@ -63,6 +66,21 @@ class MachineDriver:
         return ch
 
     def step(self, choice):
+        from mc.vloop import LivelockError
+        try:
+            self._step(choice)
+        except LivelockError as e:
+            self.violate("livelock", "the loop never becomes idle after %r: %s" % (choice, e))
+            self.loop._ready.clear()
+
+    def expect_timer_by(self, deadline, what="pending deadline"):
+        """Oracle helper: something the reference expects at `deadline` needs a live loop timer at or before it."""
+        nd = self.loop.next_deadline()
+        if nd is None or nd > deadline + 1e-6:
+            self.violate("no-timer", "%s at t=%.3f has no loop timer at or before it (next timer: %s)" %
+                         (what, deadline - self.t0, None if nd is None else round(nd - self.t0, 3)))
+
+    def _step(self, choice):
         self.log.append(choice)
         if choice == "T":
             self.loop.fire_next()
